@@ -301,12 +301,22 @@ Definition api_conv_prim (p : prim) (x : pyval) : conv :=
   end.
 
 (* ------------------------------------------------------------------ pointers, structs: shared backend code *)
+Definition prim_size (p : prim) : Z :=
+  match p with PI s _ => s | PB => 1 | PC s => s | PF32 => 4 | PF64 => 8 | PF80 => 16 end.
+
+(* natural layout of a struct of primitives (alignment of a primitive = its size) *)
+Definition align_up (off a : Z) : Z := (off + a - 1) / a * a.
+Fixpoint struct_end (off : Z) (ps : list prim) : Z :=
+  match ps with [] => off | p :: ps' => struct_end (align_up off (prim_size p) + prim_size p) ps' end.
+Definition struct_align (ps : list prim) : Z := fold_right (fun p a => Z.max (prim_size p) a) 1 ps.
+Definition struct_size (ps : list prim) : Z := align_up (struct_end 0 ps) (struct_align ps).
+
 Definition item_size (it : item) : Z :=
   match it with
   | IVoid => -1
   | IPrim _ (PI s _) => s | IPrim _ PB => 1 | IPrim _ (PC s) => s
   | IPrim _ PF32 => 4 | IPrim _ PF64 => 8 | IPrim _ PF80 => 16
-  | IStruct _ _ => 0          (* struct items: only cdata pointers are modelled *)
+  | IStruct _ ps => struct_size ps
   end.
 
 Definition prim_eqb (a b : prim) : bool :=
@@ -379,6 +389,62 @@ Definition zeros (n : Z) : list Z := repeat 0 (Z.to_nat n).
 Definition tmp_array (datasize : Z) (bs : list Z) : list Z :=
   bs ++ zeros (datasize - Z.of_nat (length bs)).
 
+Fixpoint conv_fields (ps : list prim) (xs : list pyval) : conv + list cval :=
+  match xs with
+  | [] => inr []
+  | x :: xs' =>
+      match ps with
+      | [] => inl (CErr ValueError)               (* too many initializers *)
+      | p :: ps' =>
+          match ffi_conv_prim p x with
+          | COk c => match conv_fields ps' xs' with inr cs => inr (c :: cs) | inl e => inl e end
+          | other => inl other
+          end
+      end
+  end.
+
+Fixpoint zero_fields (ps : list prim) : list cval :=
+  match ps with [] => [] | p :: ps' => CInt (prim_size p) 0 :: zero_fields ps' end.
+Fixpoint pad_fields (ps : list prim) (cs : list cval) : list cval :=
+  match ps, cs with
+  | _ :: ps', c :: cs' => c :: pad_fields ps' cs'
+  | _, [] => zero_fields ps
+  | [], _ => []
+  end.
+Fixpoint struct_vals (ps : list prim) (vs : list Z) : list cval :=
+  match ps, vs with
+  | p :: ps', v :: vs' => CInt (prim_size p) v :: struct_vals ps' vs'
+  | _, _ => []
+  end.
+
+(* object representation of a struct whose fields have the C values cs (padding = the zero bytes left by memset) *)
+Fixpoint layout_fields (off : Z) (ps : list prim) (cs : list cval) : list Z :=
+  match ps, cs with
+  | p :: ps', c :: cs' =>
+      let o := align_up off (prim_size p) in
+      zeros (o - off) ++ bytes_of_cval c ++ layout_fields (o + prim_size p) ps' cs'
+  | _, _ => []
+  end.
+Definition struct_bytes (ps : list prim) (cs : list cval) : list Z :=
+  let b := layout_fields 0 ps (pad_fields ps cs) in b ++ zeros (struct_size ps - Z.of_nat (length b)).
+
+(* list initializer for a temporary array of structs: the array has been cleared; every item is a (possibly partial)
+   list of field values, or a struct cdata of the same type (copied whole) *)
+Fixpoint conv_struct_items (id : Z) (ps : list prim) (l : list pyval) : conv + list Z :=
+  match l with
+  | [] => inr []
+  | x :: l' =>
+      let this := match x with
+                  | PyList fl => match conv_fields ps fl with inr cs => inr (struct_bytes ps cs) | inl c => inl c end
+                  | PyCStruct id' vals => if id =? id' then inr (struct_bytes ps (struct_vals ps vals)) else inl (CErr TypeError)
+                  | _ => inl (CErr TypeError)
+                  end in
+      match this with
+      | inr b => match conv_struct_items id ps l' with inr bs => inr (b ++ bs) | inl e => inl e end
+      | inl e => inl e
+      end
+  end.
+
 (* _prepare_pointer_call_argument followed by what both callers do with its answer
    (alloca/malloc + memset + convert_array_from_object). The two callers differ only in where the temporary
    lives (alloca threshold 512 vs 640 bytes), which is not observable by the callee. *)
@@ -403,7 +469,13 @@ Definition conv_pointer (it : item) (x : pyval) : conv :=
           | inr bs => COk (CMem (tmp_array datasize bs))
           | inl c => c
           end
-      | _ => CErr TypeError             (* void: ct_size <= 0 -> convert_default; struct items not modelled *)
+      | IStruct id ps =>
+          let datasize := Z.max 1 (Z.of_nat (length l) * item_size it) in
+          match conv_struct_items id ps l with
+          | inr bs => COk (CMem (tmp_array datasize bs))
+          | inl c => c
+          end
+      | IVoid => CErr TypeError         (* void: ct_size <= 0 -> convert_default *)
       end
   | PyStr l =>
       match it with
@@ -413,37 +485,6 @@ Definition conv_pointer (it : item) (x : pyval) : conv :=
       | _ => CErr TypeError
       end
   | _ => CErr TypeError
-  end.
-
-Fixpoint conv_fields (ps : list prim) (xs : list pyval) : conv + list cval :=
-  match xs with
-  | [] => inr []
-  | x :: xs' =>
-      match ps with
-      | [] => inl (CErr ValueError)               (* too many initializers *)
-      | p :: ps' =>
-          match ffi_conv_prim p x with
-          | COk c => match conv_fields ps' xs' with inr cs => inr (c :: cs) | inl e => inl e end
-          | other => inl other
-          end
-      end
-  end.
-
-Definition prim_size (p : prim) : Z :=
-  match p with PI s _ => s | PB => 1 | PC s => s | PF32 => 4 | PF64 => 8 | PF80 => 16 end.
-
-Fixpoint zero_fields (ps : list prim) : list cval :=
-  match ps with [] => [] | p :: ps' => CInt (prim_size p) 0 :: zero_fields ps' end.
-Fixpoint pad_fields (ps : list prim) (cs : list cval) : list cval :=
-  match ps, cs with
-  | _ :: ps', c :: cs' => c :: pad_fields ps' cs'
-  | _, [] => zero_fields ps
-  | [], _ => []
-  end.
-Fixpoint struct_vals (ps : list prim) (vs : list Z) : list cval :=
-  match ps, vs with
-  | p :: ps', v :: vs' => CInt (prim_size p) v :: struct_vals ps' vs'
-  | _, _ => []
   end.
 
 (* convert_from_object, CT_STRUCT case: the same function is exported as _cffi_to_c *)
@@ -508,7 +549,8 @@ Fixpoint rec_bytes (plen : Z) (c : cval) : list Z :=
   | CInt size v => le_bytes (Z.to_nat size) v
   | CLD b64 => le_bytes 8 b64
   | CNull => [0]
-  | CMem mem => 1 :: firstn (Z.to_nat plen) mem
+  | CMem mem => 1 :: (if plen <=? 64 then firstn (Z.to_nat plen) mem
+                      else le_bytes 8 (fold_left (fun h b => (h * 31 + b) mod 2 ^ 64) (firstn (Z.to_nat plen) mem) 0))
   | CStructV fs => (fix go (l : list cval) := match l with [] => [] | f :: l' => rec_bytes 0 f ++ go l' end) fs
   | CFun => [1; 22; 0; 0; 0]               (* c13_helper(3) = 22 *)
   end.
